@@ -23,9 +23,12 @@ type c15Writer struct {
 	touched bool
 }
 
-func (w *c15Writer) WriteHeader(c int)           { w.touched = true; w.ResponseRecorder.WriteHeader(c) }
-func (w *c15Writer) Write(b []byte) (int, error) { w.touched = true; return w.ResponseRecorder.Write(b) }
-func (w *c15Writer) Flush()                      { w.touched = true; w.ResponseRecorder.Flush() }
+func (w *c15Writer) WriteHeader(c int) { w.touched = true; w.ResponseRecorder.WriteHeader(c) }
+func (w *c15Writer) Write(b []byte) (int, error) {
+	w.touched = true
+	return w.ResponseRecorder.Write(b)
+}
+func (w *c15Writer) Flush() { w.touched = true; w.ResponseRecorder.Flush() }
 
 type c15Reader struct{ r io.Reader } // hides WriterTo so that io.Copy performs reads and writes
 
